@@ -46,6 +46,12 @@ def _worker(args):
     from vf.core import Ctx, HarnessError
 
     t0 = time.time()
+    import warnings
+
+    import numpy as np
+
+    warnings.simplefilter("ignore")
+    np.seterr(all="ignore")
     try:
         mod = importlib.import_module(f"vf.props.{prop.lower()}")
         ctx = Ctx(prop, tier, seed, shard, nshards, _load_known())
